@@ -104,6 +104,8 @@ def walk(tree, state, flags, atoms):
                 out.append(("bos",))
             elif av is P.AT_END:
                 out.append(("eos",))
+            elif av is P.AT_END_STRING:
+                out.append(("eos_strict",))
             else:
                 raise Unsupported(f"anchor {av}")
         elif op in (P.ASSERT, P.ASSERT_NOT):
@@ -287,6 +289,8 @@ class Emitter:
             return ".eps"
         if tag == "eos":
             return "$EOS$"
+        if tag == "eos_strict":          # `\Z`: the end of the string only
+            return ".eps"
         raise Unsupported(f"emit {tag}")
 
 
@@ -342,7 +346,7 @@ def translate_regex(name, pattern: re.Pattern, kind_fn, mode="search"):
     else:
         flat = _flatten(ir2)
         if mode == "search":
-            if not flat or flat[0][0] != "bos" or flat[-1][0] != "eos":
+            if not flat or flat[0][0] != "bos" or flat[-1][0] not in ("eos", "eos_strict"):
                 raise Unsupported("pattern is not anchored with ^ and $")
         rx = em.emit_list(flat)
     if rx.count("$EOS$") > 8:
